@@ -300,6 +300,13 @@ def gen_obstacle(rng, oid, net, role=None, horizon=None, shape_kinds=("rect", "c
                         "indicator_right": rng.chance(0.3), "braking_lights": rng.chance(0.3),
                         "hazard_warning_lights": False, "flashing_blue_lights": False}
     ob["signal_series"] = []  # the protobuf writer iterates the series: None is C02's business, not ours
+    if role not in ("static",) and rng.chance(0.25):
+        # signal states for the following time steps (from the initial step on if there is no initial signal state)
+        first = t0 + 1 if "signal" in ob else t0
+        ob["signal_series"] = [{"time_step": first + k, "horn": False, "indicator_left": rng.chance(0.5),
+                                "indicator_right": False, "braking_lights": rng.chance(0.5),
+                                "hazard_warning_lights": False, "flashing_blue_lights": False}
+                               for k in range(rng.randint(1, 3))]
     if role == "static":
         ob["role"] = "static"
         ob["type"] = "PARKED_VEHICLE"
